@@ -106,20 +106,12 @@ def main(argv=None):
         meta[inst.name] = inst
         for case in inst.cases(args.tier):
             jobs.append((modname, clsname, case, args.tier, seed))
-    # static (structural) obligations and bounded stand-ins run in the parent
-    for inst in meta.values():
-        if hasattr(inst, "static_obligations"):
-            for r in inst.static_obligations(args.tier):
-                static_results.append(dict(r, contract=inst.name, prop=inst.prop))
-        if hasattr(inst, "bounded_checks"):
-            try:
-                for r in inst.bounded_checks(args.tier, seed):
-                    bounded_results.append(dict(r, contract=inst.name, prop=inst.prop))
-            except Exception as e:  # a crashing stand-in is a checker crash (exit 3), never a verdict
-                import traceback
+    # lemma files are handed to `lean` right away; their verdicts are collected after the solver jobs
+    from pyvc import lean as _lean
 
-                print(f"CRASH bounded stand-in of {inst.name}: {type(e).__name__}: {e}\n{traceback.format_exc(limit=6)}")
-                return 3
+    for inst in meta.values():
+        for path in getattr(inst, "lemma_files", ()):
+            _lean.prefetch(path)
 
     results = []
     if jobs:
@@ -140,6 +132,21 @@ def main(argv=None):
                         break
                     if args.verbose:
                         print(f"  job {r.get('name')}[{r.get('case')}] {r['status']} paths={r['paths']} obl={len(r['obligations'])} {r.get('wall_s')}s", flush=True)
+    # static (structural) obligations and bounded stand-ins run in the parent
+    for inst in meta.values():
+        if hasattr(inst, "static_obligations"):
+            for r in inst.static_obligations(args.tier):
+                static_results.append(dict(r, contract=inst.name, prop=inst.prop))
+        if hasattr(inst, "bounded_checks"):
+            try:
+                for r in inst.bounded_checks(args.tier, seed):
+                    bounded_results.append(dict(r, contract=inst.name, prop=inst.prop))
+            except Exception as e:  # a crashing stand-in is a checker crash (exit 3), never a verdict
+                import traceback
+
+                print(f"CRASH bounded stand-in of {inst.name}: {type(e).__name__}: {e}\n{traceback.format_exc(limit=6)}")
+                return 3
+
     wall = time.time() - t0
     return report(prop, args, seed, meta, results, static_results, bounded_results, wall)
 
